@@ -1,4 +1,4 @@
-//@unit tier=quick
+//@unit tier=quick isolation=yes
 //@include prelude/uses.rs
 use std::fmt::Display;
 use std::iter::{Skip, Take};
